@@ -1575,10 +1575,14 @@ def run(ck):
         for idx, L in enumerate(layouts):
             pdocs = {u: parse_doc(d) for u, d in L.docs.items()}
             rs = load_client({"mem://single.wsdl": L.single}, [], "mem://single.wsdl")
-            if rs.exc is not None:
-                raise RuntimeError("generator bug: the single-document WSDL does not load: %r (%s)"
-                                   % (rs.exc, L.desc))
-            single_fp = fp_digest(fingerprint(rs.client))
+            try:
+                if rs.exc is not None:
+                    raise rs.exc
+                single_fp = fp_digest(fingerprint(rs.client))
+            except Exception as e:      # noqa -- never on the unchanged tree
+                ck.unproved("the single-document WSDL the partitions are compared with does not load or "
+                            "cannot be inspected: %r" % (e,), dict(L.payload(), policy=0))
+                continue
             try:
                 with Watchdog(20):
                     probe = load_client(L.docs, L.in_store, L.root)
